@@ -566,6 +566,13 @@ impl DrawState {
 
             term.write_str(line.as_ref())?;
 
+            if idx == 0 && self.lines.len() > 1 && line.console_width() == 0 {
+                // The cursor may still sit at the right edge of the last line of the previous
+                // draw. A first line without visible characters does not make the terminal wrap
+                // to the next row by itself, so print a blank to take up this line's row.
+                term.write_str(" ")?;
+            }
+
             if idx + 1 == self.lines.len() {
                 // For the last line of the output, keep the cursor on the right terminal
                 // side so that next user writes/prints will happen on the next line
